@@ -894,86 +894,120 @@ Qed.
 
 Theorem isolation_step w o : Inv w -> protocol w o ->
   Inv (exec o w) /\
-  (forall i, ~ targets o i -> i < length (roots w) -> sens_abs (exec o w) i = sens_abs w i).
+  (forall i, ~ targets o i -> i < length (roots w) -> sens_abs (exec o w) i = sens_abs w i) /\
+  length (roots w) <= length (roots (exec o w)).
 Proof.
-  intros HI Hp. unfold exec.
-  destruct o as [k d cx shp|k c cx np|k|k v s|v d|vst vse|i p v|i p v|k i p|k i p|i p v|i p kk]; cbn [step].
+  intros HI Hp. unfold exec. destruct (step o w) as [w' res] eqn:E. cbn [fst].
+  destruct o as [k d cx shp|k c cx np|k|k v s|v d|vst vse|i p v|i p v|k i p|k i p|i p v|i p kk]; cbn [step] in E.
   - (* ONewArr *)
-    unfold bind, new_array, bind, halloc, ret, put_var. cbn [fst].
+    unfold bind, new_array, bind, halloc, ret, put_var in E. inversion E; subst; clear E.
     set (w1 := set_heap w (heap w ++ [{| bdata := d; bcplx := cx |}])).
     assert (He : heap_ext (heap w) (heap w1)) by (eexists; reflexivity).
     destruct (step_put_var w w1 k (VWin (length (heap w)) (whole (length d)) shp) HI eq_refl eq_refl He) as [A B].
     + eapply pubval_fresh; [exact HI|reflexivity|]. intros r E; cbn in E; inversion E; subst.
       unfold w1; cbn. rewrite app_length; cbn; lia.
-    + split; [exact A|intros i _ _; apply B].
+    + split; [exact A|split; [intros i _ _; apply B|cbn; lia]].
   - (* ONewScal *)
-    unfold put_var. cbn [fst].
+    unfold put_var in E. inversion E; subst; clear E.
     destruct (step_put_var w w k (VScal c cx np) HI eq_refl eq_refl (heap_ext_refl _) (pubval_scal _ _ _ _)) as [A B].
-    split; [exact A|intros i _ _; apply B].
+    split; [exact A|split; [intros i _ _; apply B|cbn; lia]].
   - (* ONewNone *)
-    unfold put_var. cbn [fst].
+    unfold put_var in E. inversion E; subst; clear E.
     destruct (step_put_var w w k VNone HI eq_refl eq_refl (heap_ext_refl _) (pubval_none _)) as [A B].
-    split; [exact A|intros i _ _; apply B].
+    split; [exact A|split; [intros i _ _; apply B|cbn; lia]].
   - (* OSliceVar *)
-    unfold bind, get_var.
-    destruct (getitem (nth v (vars w) VNone) s w) as [w1 [a|e]] eqn:E.
-    + apply getitem_alloc in E as (Hr & Hv & He & Hd). specialize (Hd a eq_refl).
-      unfold put_var. cbn [fst].
+    unfold bind, get_var in E.
+    destruct (getitem (nth v (vars w) VNone) s w) as [w1 [a|e]] eqn:E1.
+    + apply getitem_alloc in E1 as (Hr & Hv & He & Hd). specialize (Hd a eq_refl).
+      unfold put_var in E. inversion E; subst; clear E.
       destruct (step_put_var w w1 k a HI Hr Hv He) as [A B].
       * eapply pubval_derived; eauto using pubval_var. apply heap_ext_len; exact He.
-      * split; [exact A|intros i _ _; apply B].
-    + apply getitem_alloc in E as (Hr & Hv & He & _). cbn [fst].
-      destruct (world_heap_ext w w1 HI Hr Hv He) as [A B]. split; [exact A|intros i _ _; apply B].
+      * split; [exact A|split; [intros i _ _; apply B|cbn; rewrite Hr; lia]].
+    + apply getitem_alloc in E1 as (Hr & Hv & He & _). inversion E; subst; clear E.
+      destruct (world_heap_ext w w' HI Hr Hv He) as [A B]. split; [exact A|split; [intros i _ _; apply B|rewrite Hr; lia]].
   - (* OMut *)
-    unfold bind, get_var.
+    unfold bind, get_var in E.
     pose proof (pubval_var w v HI) as Hx.
-    destruct (nth v (vars w) VNone) as [|c cx np|r ix shp] eqn:Ev; try (cbn; split; [exact HI|reflexivity]).
-    destruct (Nat.eqb (length d) (length ix)); [|cbn; split; [exact HI|reflexivity]].
-    unfold mwrite. cbn [fst]. split.
+    destruct (nth v (vars w) VNone) as [|c cx np|r ix shp] eqn:Ev;
+      try (unfold fail in E; inversion E; subst; split; [exact HI|split; [reflexivity|lia]]).
+    destruct (Nat.eqb (length d) (length ix)); [|unfold fail in E; inversion E; subst; split; [exact HI|split; [reflexivity|lia]]].
+    unfold mwrite in E. inversion E; subst; clear E. split; [|split; [|cbn; lia]].
     + eapply Inv_same_refs; [exact HI|reflexivity|reflexivity|]. cbn. rewrite hwrite_length; lia.
-    + intros i _ _. unfold sens_abs. cbn. apply val_abs_frame. intros r' Hr'.
+    + intros i _ _. unfold sens_abs. cbn [heap set_heap]. change (root (set_heap w _) i) with (root w i).
+      apply val_abs_frame. intros r' Hr'.
       apply getbuf_hwrite_other. intros ->. destruct (Hx r eq_refl) as [_ Hn]. apply (Hn i). exact Hr'.
   - (* ONewSig *)
-    unfold bind, get_var. cbn [fst].
+    unfold bind, get_var in E. inversion E; subst; clear E.
     destruct (Inv_new_sig w (nth vst (vars w) VNone) (nth vse (vars w) VNone) HI (pubval_var _ _ HI) Hp) as [A B].
-    split; [exact A|intros i _ Hi; apply B; exact Hi].
+    split; [exact A|split; [intros i _ Hi; apply B; exact Hi|cbn; rewrite app_length; lia]].
   - (* OSetState *)
-    unfold bind at 1. unfold get_var at 1.
+    unfold bind at 1 in E. unfold get_var at 1 in E.
     destruct p as [|s p'].
-    + cbn. unfold bind, get_root, put_root. cbn [fst]. fold (root w i). split.
+    + cbn in E. unfold bind, get_root, put_root in E. inversion E; subst; clear E. fold (root w i). split; [|split].
       * apply Inv_put_state; [exact HI|apply pubval_var; exact HI].
       * intros j _ _. apply sens_abs_put_state.
-    + destruct (set_st i (s :: p') (nth v (vars w) VNone) w) as [w' res] eqn:E. cbn [fst].
-      apply set_st_slice_footprint in E as (Hr & Hv & Hf); [|apply state_valid; exact HI].
-      destruct Hf as [L M F]. split.
+      * cbn. rewrite upd_length; lia.
+    + apply set_st_slice_footprint in E as (Hr & Hv & Hf); [|apply state_valid; exact HI].
+      destruct Hf as [L M F]. split; [|split; [|rewrite Hr; lia]].
       * eapply Inv_same_refs; eauto.
       * intros j _ _. unfold sens_abs.
         assert (Er : root w' j = root w j) by (unfold root; rewrite Hr; reflexivity).
         rewrite Er. apply val_abs_frame. intros r Hr'.
         apply F; [eapply sens_valid; eauto|]. intros Hs. destruct HI as [_ Hpr]. destruct (Hpr j r Hr') as (_ & P2 & _). eapply P2; exact Hs.
   - (* OSetSens *)
-    unfold bind at 1. unfold get_var at 1.
-    destruct (set_se i p (nth v (vars w) VNone) w) as [w' res] eqn:E. cbn [fst].
+    unfold bind at 1 in E. unfold get_var at 1 in E.
     apply set_se_footprint in E; [|apply sens_valid; exact HI|].
-    + split; [eapply Inv_sens_footprint; eauto|]. intros j Hj _. cbn in Hj. eapply sens_abs_sens_footprint; eauto.
+    + split; [eapply Inv_sens_footprint; eauto|split; [|destruct E as [[] _]; lia]].
+      intros j Hj _. cbn in Hj. eapply sens_abs_sens_footprint; eauto.
     + cbn in Hp. destruct Hp as [Hp|Hp]; [right; exact Hp|left]. intros r Hr. rewrite Hp in Hr; discriminate.
   - (* OGetState *)
-    unfold bind. destruct (get_st i p w) as [w1 [a|e]] eqn:E; unfold get_st in E.
-    + apply get_fld_alloc in E as (Hr & Hv & He & Hd). specialize (Hd a eq_refl).
-      unfold put_var. cbn [fst].
+    unfold bind in E. destruct (get_st i p w) as [w1 [a|e]] eqn:E1; unfold get_st in E1.
+    + apply get_fld_alloc in E1 as (Hr & Hv & He & Hd). specialize (Hd a eq_refl).
+      unfold put_var in E. inversion E; subst; clear E.
       destruct (step_put_var w w1 k a HI Hr Hv He) as [A B].
       * eapply pubval_derived; eauto using pubval_state. apply heap_ext_len; exact He.
-      * split; [exact A|intros j _ _; apply B].
-    + apply get_fld_alloc in E as (Hr & Hv & He & _). cbn [fst].
-      destruct (world_heap_ext w w1 HI Hr Hv He) as [A B]. split; [exact A|intros j _ _; apply B].
+      * split; [exact A|split; [intros j _ _; apply B|cbn; rewrite Hr; lia]].
+    + apply get_fld_alloc in E1 as (Hr & Hv & He & _). inversion E; subst; clear E.
+      destruct (world_heap_ext w w' HI Hr Hv He) as [A B]. split; [exact A|split; [intros j _ _; apply B|rewrite Hr; lia]].
   - (* OGetSens *) destruct Hp.
   - (* OAddSens *)
-    unfold bind at 1. unfold get_var at 1.
-    destruct (add_se i p (nth v (vars w) VNone) w) as [w' res] eqn:E. cbn [fst].
+    unfold bind at 1 in E. unfold get_var at 1 in E.
     apply add_se_footprint in E; [|apply sens_valid; exact HI].
-    split; [eapply Inv_sens_footprint; eauto|]. intros j Hj _. cbn in Hj. eapply sens_abs_sens_footprint; eauto.
+    split; [eapply Inv_sens_footprint; eauto|split; [|destruct E as [[] _]; lia]].
+    intros j Hj _. cbn in Hj. eapply sens_abs_sens_footprint; eauto.
   - (* OReset *)
-    destruct (reset i p kk w) as [w' res] eqn:E. cbn [fst].
     apply reset_footprint in E; [|apply sens_valid; exact HI].
-    split; [eapply Inv_sens_footprint; eauto|]. intros j Hj _. cbn in Hj. eapply sens_abs_sens_footprint; eauto.
+    split; [eapply Inv_sens_footprint; eauto|split; [|destruct E as [[] _]; lia]].
+    intros j Hj _. cbn in Hj. eapply sens_abs_sens_footprint; eauto.
+Qed.
+
+(* ------------------------------------------------------------------ arbitrary operation sequences *)
+Fixpoint protocol_run (w : world) (os : list op) : Prop :=
+  match os with
+  | [] => True
+  | o :: t => protocol w o /\ protocol_run (exec o w) t
+  end.
+
+Lemma Inv_world0 n : Inv (world0 n).
+Proof.
+  split; [split; [|split]|].
+  - intros v r Hin E. cbn in Hin. apply repeat_spec in Hin. subst; discriminate.
+  - intros j r E. unfold state_is, root in E. cbn in E. destruct j; discriminate.
+  - intros j r E. unfold sens_is, root in E. cbn in E. destruct j; discriminate.
+  - intros j r E. unfold sens_is, root in E. cbn in E. destruct j; discriminate.
+Qed.
+
+Theorem no_alias_run : forall os w, Inv w -> protocol_run w os -> Inv (run os w).
+Proof.
+  induction os as [|o os IH]; intros w HI Hp; [exact HI|].
+  destruct Hp as [Hp1 Hp2]. unfold run; cbn. apply IH; [|exact Hp2]. apply isolation_step; assumption.
+Qed.
+
+Theorem isolation_run : forall os w i, Inv w -> protocol_run w os -> i < length (roots w) ->
+  Forall (fun o => ~ targets o i) os -> sens_abs (run os w) i = sens_abs w i.
+Proof.
+  induction os as [|o os IH]; intros w i HI Hp Hi Hf; [reflexivity|].
+  destruct Hp as [Hp1 Hp2]. inversion Hf as [|? ? Hf1 Hf2]; subst.
+  destruct (isolation_step w o HI Hp1) as (A & B & L).
+  unfold run; cbn. fold (run os (exec o w)). rewrite IH; auto. lia.
 Qed.
